@@ -895,7 +895,9 @@ def _make_out(rng, g, upto, int_out, all_sum=False):
         iv = [i for i in range(n_in, n_in + upto) if tys[i][0] == I and list(tys[i][1]) == []]
         if iv:
             return {"kind": "int", "id": iv[-1]}
-    sinks = [i for i in range(len(tys)) if tys[i][0] == F and i not in used]
+    # all_sum (attribution prefixes): every float value feeds the output directly, so that a later node can neither
+    # mask nor re-expose what an earlier node computed and "prefix k fails" is monotone in k
+    sinks = [i for i in range(len(tys)) if tys[i][0] == F and (all_sum or i not in used)]
     hows = ["sum", "mean", "first", "sum"]
     terms = []
     for k, i in enumerate(sinks):
@@ -905,8 +907,8 @@ def _make_out(rng, g, upto, int_out, all_sum=False):
 
 
 def prefix_program(spec, k):
-    """Program made of the first k top-level nodes; output = sum over every element of every float value no
-    later node of the prefix consumes (so that nothing computed in the prefix is invisible)."""
+    """Program made of the first k top-level nodes; output = sum over every element of every float value of the
+    prefix (arguments, constants, nodes), so that nothing computed in the prefix is invisible."""
     body = dict(spec["body"])
     body = {"ins": body["ins"], "nodes": body["nodes"][:k], "ret": []}
     out = _make_out(None, body, k, False, all_sum=True)
